@@ -404,9 +404,72 @@ def run(tier, seed, replay=None):
     for d, c in at_origin.items():
         if d not in all_sent and d not in (b"warm", b"") and d not in all_extra:
             rep.fail("C10: the origin received a datagram no client sent: %r (%d bytes, %d times)" % (d[:40], len(d), c), {"kind": "failing-input", "scenario": "stray datagram at the origin"})
+    # ---- the datagram hop of C10_quic_datagram_hop_exact against the real sender half, fragmenter and reassembly table ----
+    # writes of 1-4 sessions, fragment ids as the source assigns them (one shared counter, incl. wrap-around at 65535) or - to
+    # keep model and code tied where they mix - one counter per writer; complete schedules (every fragment once, any order),
+    # and schedules with loss and duplicates
+    import codec_cases as cdc
+    rh = rng(seed, "C10-hop")
+    hop_lines, hop_meta = [], []
+    n_hop = 400 if tier == "quick" else 6000
+    for _ in range(n_hop):
+        mtu = rh.choice([12, 20, 30, 64, 200, 1200])
+        nw = rh.randrange(1, 7)
+        sids = [rh.choice([1, 2, 3, 4294967295]) for _ in range(nw)]
+        ws = []
+        for k in range(nw):
+            addr = rh.choice(["none", cdc.tgt_v4(bytes([10, 0, k, 9]), 53 + k), cdc.tgt_domain(b"h%d.example" % k, 443)])
+            nfr = rh.choice([1, 1, 2, 3, 5, 5, 63, 64, 65, 127] if mtu <= 30 else [1, 1, 2, 3, 5])
+            blen = max(0, rh.randrange((nfr - 1) * (mtu - 4) + 1, nfr * (mtu - 4) + 1) - 12 - (0 if addr == "none" else 8 if addr[0] == "4" else 14))
+            body = bytes((17 * k + i) & 255 for i in range(min(blen, 6000)))
+            ws.append((sids[k], addr, body))
+        mode = rh.choice(["shared", "shared", "shared", "own"])
+        ids = "shared:%d" % rh.choice([0, 7, 65533, 65535, rh.randrange(65536)]) if mode == "shared" else "own"
+        hop_lines.append(("probe", mtu, ids, ws))
+    # fragment counts are needed for the schedules: ask the model for each write's fragment count through a complete in-order probe
+    probe = ["dgram_hop %d %s %s -" % (mtu, ids, ";".join("%d/%s/%s" % (sid, a, b.hex() or "-") for sid, a, b in ws)) for _, mtu, ids, ws in hop_lines]
+    lines2, meta2 = [], []
+    for (_, mtu, ids, ws), pr in zip(hop_lines, probe):
+        counts = []
+        for sid, a, b in ws:
+            enc = 12 + (0 if a == "none" else 8 if a[0] == "4" else 2 + len(bytes.fromhex(a[1:].rpartition(":")[0])) + 2) + len(b)
+            counts.append(max(1, -(-enc // (mtu - 4))))
+        if max(counts) > 127:
+            continue
+        sched = [(k, i) for k, c in enumerate(counts) for i in range(c)]
+        kind = rh.choice(["perm", "perm", "perm", "lossy", "dups"])
+        rh.shuffle(sched)
+        if kind == "lossy" and len(sched) > 1:
+            sched = sched[:-1 - rh.randrange(len(sched) // 2 + 1)]
+        elif kind == "dups":
+            sched += [rh.choice(sched) for _ in range(rh.randrange(1, 4))]
+            rh.shuffle(sched)
+        lines2.append(pr[:-1] + (",".join("%d.%d" % e for e in sched) or "-"))
+        meta2.append((mtu, ids, ws, counts, kind, sched))
+    hi, hm = run_pair(driver, model, lines2)
+    n_hop_diff = 0
+    for line, (mtu, ids, ws, counts, kind, sched), oi, om in zip(lines2, meta2, hi, hm):
+        n_eval += 1
+        dist["hop:%s:%s" % (ids.split(":")[0], kind)] += 1
+        rp = {"kind": "failing-input", "scenario": "dgram_hop", "line": line[:2000], "observed": oi[:600], "model": om[:600]}
+        if "PANIC" in oi or oi.startswith("CRASH"):
+            rep.fail("C10: the sender half / reassembly table panicked: %s" % oi[:120], rp)
+            continue
+        if oi != om:
+            n_hop_diff += 1
+            if n_hop_diff <= 3:
+                rep.fail("C10: datagram hop: implementation and model (QuicDgram.v) differ: %s vs %s" % (oi[:100], om[:100]), rp)
+            continue
+        # the property's own oracle, where the theorem speaks: ids from the shared counter, every fragment exactly once
+        if ids.startswith("shared") and kind == "perm" and " " in oi:
+            outs = [x for x in oi.split(" ", 1)[1].split(",") if x != "-"]
+            want = sorted("F/%d/%s/%s" % (sid, a, b.hex() or "-") for sid, a, b in ws)
+            if sorted(outs) != want:
+                rep.fail("C10: datagram hop with ids from the shared counter, every fragment delivered once in some order: the table yields %s, the writes were %s" % (sorted(outs)[:3], want[:3]), rp)
     rep.coverage.update({
+        "datagram_hop_cases": len(lines2), "datagram_hop_disagreements": n_hop_diff,
         "evaluations": n_eval, "distinct_nontrivial": len(shapes),
-        "rule": "sessions: reverse UDP client, SOCKS5 UDP association with IPv4 destination, with domain destination (through hops) x paths %s, 3-8 datagrams of 1..8000 bytes each with gaps 0/10/50 ms, 10 sessions in flight at a time with session-tagged payloads; one empty datagram; a hand-written HTTP CONNECT udp/inline client (frames from the model's encoder) that waits for the 200 or sends its first 1-3 frames (17..20000 bytes) in the same write as the request; 5 (thorough 8) concurrent sessions on one QUIC connection (datagram and inline mode) sending 120 (300) datagrams of 2500-3900 bytes each every 4 ms; a session whose TCP client stops reading while a chatty origin sends it 12000 datagrams, next to a session on the same path that must keep being served (QUIC datagram, QUIC inline, HTTP paths)" % uw.PATHS,
+        "rule": "sessions: reverse UDP client, SOCKS5 UDP association with IPv4 destination, with domain destination (through hops) x paths %s, 3-8 datagrams of 1..8000 bytes each with gaps 0/10/50 ms, 10 sessions in flight at a time with session-tagged payloads; one empty datagram; a hand-written HTTP CONNECT udp/inline client (frames from the model's encoder) that waits for the 200 or sends its first 1-3 frames (17..20000 bytes) in the same write as the request; 5 (thorough 8) concurrent sessions on one QUIC connection (datagram and inline mode) sending 120 (300) datagrams of 2500-3900 bytes each every 4 ms; a session whose TCP client stops reading while a chatty origin sends it 12000 datagrams, next to a session on the same path that must keep being served (QUIC datagram, QUIC inline, HTTP paths); driver op dgram_hop: 400 (thorough 6000) runs of the real sender half + fragmenter + one reassembly table on 1-6 writes of 1-4 sessions, datagram sizes 12..1200, ids shared (incl. wrap at 65535) or per writer, schedules complete / lossy / with duplicates, against the extracted QuicDgram.v" % uw.PATHS,
         "input_distribution": dict(dist), "datagrams_at_origin": len(rx), "sessions_retried": retried, "concurrent_large_datagram_runs": storm_stats, "stalled_neighbour_runs": neighbours,
     })
     rep.assumptions = ["loopback UDP and QUIC datagrams may drop under concurrent load: a failing session is repeated alone twice and reported only if it fails every time", "the RSV bytes of the SOCKS5 UDP reply header (05 03 instead of 00 00) are not part of the property"]
